@@ -63,7 +63,8 @@ def run_cell(args):
         }
         xv = cell.get("xval")
         if xv is not None and r["complete"] and not r["violations"]:
-            seen, obs, n = explorer.states_of_bounded(W, cell["scen"], xv, seed=seed)
+            seen, obs, n = explorer.states_of_bounded(W, cell["scen"], xv, seed=seed, max_exec=cell.get("xval_max_exec"))
+            seen.discard(None)
             missing = len(seen - r["visited"])
             out["xval"] = {
                 "bound": xv,
